@@ -421,6 +421,9 @@ def run_rows(args):
         except Exception as e:
             what, aligned = "%s: %s" % (type(e).__name__, str(e)[:200]), True
         feats["aligned_checked"] = aligned
+        if not aligned and label != "no" and (tolerant or ("pruned_sat" in label and "partdrop" in label)):
+            continue        # only a count could be evaluated and known regions with opposite effects on it (or the
+            #                 interval reading) apply: uninformative
         res.append((G_ROWS, feats, what is None, what, len(view.full) > 0, ("rows", view.ds.name, F, ocols, False)))
     return res
 
@@ -574,7 +577,7 @@ def run_bounded(ctx):
         "OR-of-AND, nested group, ranges) x output columns cycling through {all, key+2 others, key, filter columns "
         "only, neither key nor filter columns}. Order comparisons on an unordered categorical are not enumerated "
         "(undefined in pandas). The alignment part is not enumerated when bad_plumbing holds (count part still is: "
-        "feature aligned_checked). distinct = (dataset, shape, columns, operators, constant classes, column "
+        "feature aligned_checked; such a case is dropped when it is also null-sensitive and inside a known region). distinct = (dataset, shape, columns, operators, constant classes, column "
         "variant); nontrivial = dataset has rows." % (DATASETS, FOREIGN, "2nd" if ctx.tier == "quick" else "")))
     ctx.bounded_group(G_MASK, rule=(
         "same datasets x masks {all, none, alternate, every third, first row, last row, first/last row of every row "
